@@ -171,22 +171,35 @@ def genotype(
     elif profile_name == "pgrnseq-v3":
         profile_name = "pgx3"
 
-    if kind in ["vcf", "pscan"]:
-        log.warn("WARNING: Using VCF file. Copy-number calling is not available.")
-        # two default copies (one for an X/Y-linked gene of a male) unless the user supplies a structure
-        gene.do_copy_number = False
-        profile = Profile("user_provided", cn_solution=cn_solution, **params)
-        sample = sam.Sample(gene, profile, sam_path, debug=debug)
-    else:
-        if cn_solution:
+    is_vcf = output_file and output_file.name.endswith(".vcf")
+    is_simple = is_simple or (
+        output_file is not None and output_file.name.endswith(".simple")
+    )
+    is_aldy = output_file and not (is_vcf or is_simple)
+
+    try:
+        if kind in ["vcf", "pscan"]:
+            log.warn("WARNING: Using VCF file. Copy-number calling is not available.")
+            # two default copies (one for an X/Y-linked gene of a male) unless the user supplies a structure
+            gene.do_copy_number = False
             profile = Profile("user_provided", cn_solution=cn_solution, **params)
-        elif kind != "dump":
-            if not profile_name:
-                raise AldyException("Profile not provided")
-            profile = Profile.load(gene, profile_name, cn_region, **params)
+            sample = sam.Sample(gene, profile, sam_path, debug=debug)
         else:
-            profile = None
-        sample = sam.Sample(gene, profile, sam_path, reference, debug)
+            if cn_solution:
+                profile = Profile("user_provided", cn_solution=cn_solution, **params)
+            elif kind != "dump":
+                if not profile_name:
+                    raise AldyException("Profile not provided")
+                profile = Profile.load(gene, profile_name, cn_region, **params)
+            else:
+                profile = None
+            sample = sam.Sample(gene, profile, sam_path, reference, debug)
+    except AldyException:
+        # the sample was refused before it got a name: the gene still gets its (empty) result line
+        if is_simple:
+            name = os.path.basename(sam_path).split(".")[0]
+            print(name, gene.name, "", sep="\t", file=output_file)
+        raise
     profile = sample.profile  # if loaded for a dump
     assert profile, "Profile not set"
     if kind == "dump":
@@ -195,11 +208,6 @@ def genotype(
             profile.cn_solution = cn_solution
 
     json[gene.name].update({"sample": sample.name})
-    is_vcf = output_file and output_file.name.endswith(".vcf")
-    is_simple = is_simple or (
-        output_file is not None and output_file.name.endswith(".simple")
-    )
-    is_aldy = output_file and not (is_vcf or is_simple)
     if is_simple:
         print(
             sample.name,
